@@ -385,3 +385,46 @@ def history_c09(rng):
     if rng.random() < 0.4:
         ops.append(wr(main, focus_set))
     return ops
+
+
+def history_c10(rng):
+    """3-9 operations: reads of the six formats on fresh and REUSED reader objects (same document again, another
+    document), API-built sets, writes by any writer in between, edits of a set (add_style, rules in place, caption
+    times / style / layout, node append / content, caption removal), and re-reads of a document after edits."""
+    ops = []
+    nsets = 0
+    readers = {}          # fmt -> reader ids
+    rid = 0
+    docs = []             # (fmt, doc, opts) read so far
+    wid = 0
+    n = rng.randint(3, 9)
+    while len(ops) < n:
+        r = rng.random()
+        if nsets == 0 or r < 0.45:
+            q = rng.random()
+            if docs and q < 0.35:
+                fmt, doc, opts = rng.choice(docs)          # the same document again (a later read)
+            elif q < 0.45 and nsets:
+                ops.append({"op": "build", "spec": gen_spec(rng)})
+                nsets += 1
+                continue
+            else:
+                fmt = rng.choice(FORMATS)
+                doc, opts = DOCS[fmt](rng), read_opts(rng, fmt)
+                docs.append((fmt, doc, opts))
+            if readers.get(fmt) and rng.random() < 0.6:
+                use = rng.choice(readers[fmt])               # reader reuse
+            else:
+                use = rid
+                rid += 1
+                readers.setdefault(fmt, []).append(use)
+            ops.append({"op": "read", "fmt": fmt, "doc": doc, "opts": opts, "r": use})
+            nsets += 1
+        elif r < 0.75:
+            ops.append({"op": "edit", "set": rng.randrange(nsets), "edit": gen_edit(rng)})
+        else:
+            kind, wopts = gen_writer(rng)
+            s = rng.randrange(nsets)
+            ops.append({"op": "write", "kind": kind, "wopts": wopts, "kw": {}, "w": wid, "set": s})
+            wid += 1
+    return ops
